@@ -20,7 +20,7 @@ Process-wide state and per-page interpreter state (Model/ProcGlobals.lean):
   gmetrics key                                FONT_METRICS lookup
 GPAGE    := ncs (key kind arg)* nops (code a b)*     kind 0 named(arg) 1 [/ICCBased N=arg] 2 [/DeviceN arg names]
              code 0 Tc 1 Tw 2 Tz 3 TL 4 Ts 5 Tr (b-1000 = value) 6 Tf(a = name, b-1000 = size) 7 q 8 Q 9 cs(a) 10 CS(a)
-                  11 stray name(a) 12 unknown operator(a)
+                  11 stray name(a) 12 unknown operator(a) 13 G g RG rg K k (a = 0 gray 1 rgb 2 cmyk, b = 1 stroking)
 
 Object cache with mutable containers (Model/ProcObjCache.lean); a fresh parse of object n gives [n]:
   oworld caching nids id*                     which objects exist; state := init
@@ -165,7 +165,7 @@ def pGPage : P GPage := fun ts =>
       | 3 => some (TOp.TL (val e.2.2)) | 4 => some (TOp.Ts (val e.2.2)) | 5 => some (TOp.Tr (val e.2.2))
       | 6 => some (TOp.Tf e.2.1 (val e.2.2)) | 7 => some TOp.q | 8 => some TOp.Q
       | 9 => some (TOp.cs e.2.1) | 10 => some (TOp.CS e.2.1) | 11 => some (TOp.lit e.2.1)
-      | 12 => some (TOp.unknown e.2.1) | _ => none)
+      | 12 => some (TOp.unknown e.2.1) | 13 => some (TOp.dev (e.2.2 != 0) e.2.1) | _ => none)
     if ops'.length != ops.length then none else some ({ cs := cs', ops := ops' }, ts2)
 
 def showCS (c : Option CS) : String :=
